@@ -5,7 +5,7 @@ import json
 import os
 
 HERE = os.path.dirname(os.path.abspath(__file__))
-rows = ["| id | what the change does | what it needs to manifest | caught by (quick tier) — first signature | note |", "|---|---|---|---|---|"]
+rows = ["| id | what the change does | what it needs to manifest | caught by (quick tier) — first signature | re-check at the final harness / HEAD | note |", "|---|---|---|---|---|---|"]
 n = caught = 0
 for mp in sorted(glob.glob(os.path.join(HERE, "seeded", "*", "meta.json"))):
     m = json.load(open(mp))
@@ -18,7 +18,16 @@ for mp in sorted(glob.glob(os.path.join(HERE, "seeded", "*", "meta.json"))):
     if c["exit"] == 1:
         caught += 1
     verdict = "%s %s: `%s`" % (pid, c.get("tier", "quick"), sig) if c["exit"] == 1 else "**missed** (exit %s)" % c["exit"]
-    rows.append("| %s | %s | %s | %s | %s |" % (name, m.get("what_it_changes", "").replace("|", "/"), m.get("needs_to_manifest", "").replace("|", "/"), verdict, m.get("note", "")))
+    rc = m.get("recheck")
+    if m.get("obsolete_at_head"):
+        re_txt = "unreachable at HEAD (see ported)"
+    elif not rc:
+        re_txt = "-"
+    elif rc.get("exit") == 1:
+        re_txt = "detected @%s: `%s`" % (rc.get("repo_head", "?"), (rc.get("violation_signatures") or ["?"])[0].replace("|", " / ").replace("\n", " ")[:60])
+    else:
+        re_txt = "**not detected** @%s (exit %s)" % (rc.get("repo_head", "?"), rc.get("exit"))
+    rows.append("| %s | %s | %s | %s | %s | %s |" % (name, m.get("what_it_changes", "").replace("|", "/"), m.get("needs_to_manifest", "").replace("|", "/"), verdict, re_txt, m.get("note", "")))
 text = "\n".join(rows) + "\n\n%d seeded changes, %d caught by the property's own check.\n" % (n, caught)
 p = os.path.join(HERE, "DESIGN.md")
 s = open(p).read()
